@@ -14,7 +14,10 @@
 (*                            (possibly with line feeds) and returned ok     *)
 (*  attach tty, cons          AttachTo(cons) was invoked on terminal tty     *)
 (*  state  tty, st            SetState(st) was invoked on terminal tty       *)
-(*  end    what the HAL considers live and what every terminal received      *)
+(*  end    what the HAL considers live and what every terminal received;     *)
+(*         sink = id of the terminal that is the log sink, 0 for the early   *)
+(*         ring, -1 for a writer the harness cannot identify (delivery is    *)
+(*         then judged by the log check alone)                               *)
 (*                                                                          *)
 (* The environment only logs bytes >= 128 (`injected` bytes, a serial        *)
 (* pattern, so each is identifiable); the HAL's own messages are ASCII and   *)
@@ -101,7 +104,7 @@ Mon(s, e) ==
                   <<"C16", e.activeTTY # s.actTTY, <<"active terminal is not the first one initialised", e.activeTTY, s.actTTY>> >>,
                   <<"C16", e.activeCons # s.actCons, <<"active console is not the first one initialised", e.activeCons, s.actCons>> >>,
                   <<"C16", Range(e.active) \cap s.failed # {}, <<"a driver whose initialisation failed is active", Range(e.active) \cap s.failed>> >>,
-                  <<"C16", s.linked /\ (e.sink # s.actTTY \/ Lookup(e.state, s.actTTY, 0) # 1 \/ Lookup(e.attached, s.actTTY, 0) # s.actCons),
+                  <<"C16", s.linked /\ (e.sink \notin {s.actTTY, -1} \/ Lookup(e.state, s.actTTY, 0) # 1 \/ Lookup(e.attached, s.actTTY, 0) # s.actCons),
                            <<"terminal not attached / active / log sink after both devices came up: sink", e.sink, "state", e.state, "attached", e.attached>> >>,
                   <<"C16", ~s.linked /\ e.sink # 0, <<"log sink switched although no terminal/console pair exists", e.sink>> >>,
                   <<"C16", \E i \in 1..Len(e.shown) : e.shown[i].id # s.actTTY /\ e.shown[i].v # <<>>,
